@@ -1298,6 +1298,7 @@ class EventElement(EDXMLEvent):
         super().__init__(properties, event_type_name, source_uri, parents, attachments, foreign_attribs)
 
         self._foreign_attribs = foreign_attribs if foreign_attribs is not None else {}
+        self.set_foreign_attributes(self._foreign_attribs)
 
     def __str__(self):
         return etree.tostring(self.__element, encoding='unicode')
